@@ -380,6 +380,12 @@ example : dedupe exVarSig
     [⟨0, 0, 0, ⟨[exWeb, exList12], [(['z'], exList13)]⟩⟩, ⟨0, 0, 0, ⟨[exWeb, exList12], [(['z'], exList13)]⟩⟩,
      ⟨0, 0, 0, ⟨[exWeb, exList12], [(['z'], exList12)]⟩⟩] =
     [⟨0, 0, 0, ⟨[exWeb, exList12], [(['z'], exList13)]⟩⟩, ⟨0, 0, 0, ⟨[exWeb, exList12], [(['z'], exList12)]⟩⟩] := by decide
+/-- the same contents in another container type are ANOTHER value when Python's `==` says so (a list
+    `["x","y"]`, kind 0, and a tuple `("x","y")`, kind 1): both invocations run, in either order -/
+example : dedupe (fun _ => .plain [⟨['t'], none⟩])
+    [⟨0, 0, 0, ⟨[], [(['t'], .compound 1 [1, 2])]⟩⟩, ⟨0, 0, 0, ⟨[], [(['t'], .compound 0 [1, 2])]⟩⟩,
+     ⟨0, 0, 0, ⟨[.compound 1 [1, 2]], []⟩⟩] =
+    [⟨0, 0, 0, ⟨[], [(['t'], .compound 1 [1, 2])]⟩⟩, ⟨0, 0, 0, ⟨[], [(['t'], .compound 0 [1, 2])]⟩⟩] := by decide
 /-- the hypotheses of `effective_args_dedupe` are satisfiable by a list with real duplicates under
     different spellings -/
 example :
